@@ -88,21 +88,34 @@ def feature_programs(kskel, names=None):
 
 
 def try_family():
-    L = [('bind', 'a'), ('use', 'a'), ('bind', 'b'), ('mov', 'a', 'b')]
-    FB = [()] + [(l,) for l in L] + [(('if', (l,), ()),) for l in L]
-    for body in L:
-        for fb in FB[1:]:
+    """try statements whose parts are a leaf or a one-armed if (with or without a following leaf): body, handler, else, finally"""
+    L = [('bind', 'a'), ('use', 'a'), ('mov', 'a', 'b')]
+    B = [('bind', 'a'), ('mov', 'a', 'b')]
+    P = [(l,) for l in L] + [(('if', (l,), ()),) for l in B] + [(('if', (('bind', 'a'),), ()), ('use', 'a'))]
+    OPT = [()] + P
+    for body in P:
+        for fb in P:
             for tail in (('use', 'a'), ('use', 'b')):
-                yield (('try', 'nohandler', (body,), None, (), (), fb), tail)
-        for hb in L:
-            for eb in [()] + [(l,) for l in L]:
-                for fb in FB:
-                    if not eb and not fb:
+                yield (('try', 'nohandler', body, None, (), (), fb), tail)
+        for hb in P:
+            for eb in OPT:
+                for fb in OPT:
+                    if not eb and not fb and len(body) == 1 and len(hb) == 1 and body[0][0] != 'if' and hb[0][0] != 'if':
                         continue          # the k<=4 core has these
                     for rz in ('both', 'first', 'last'):
                         for hn in (None, 'b'):
-                            for tail in (('use', 'a'), ('use', 'b')):
-                                yield (('try', rz, (body,), hn, (hb,), eb, fb), tail)
+                            yield (('try', rz, body, hn, hb, eb, fb), ('use', 'a'))
+
+
+def feature_pairs():
+    """two features in one program (the second one next to the first): every ordered pair, variable a then b"""
+    names = sorted(features.FEATURES)
+    for f1 in names:
+        for f2 in names:
+            if features.FEATURES[f1].get('toplevel') and features.FEATURES[f2].get('toplevel'):
+                pass
+            yield (('bind', 'a'), ('bind', 'b'), ('feat', f1, 'a'), ('feat', f2, 'a'))
+            yield (('feat', f1, 'a'), ('feat', f2, 'b'), ('use', 'a'), ('use', 'b'))
 
 
 def space(tier):
@@ -137,6 +150,9 @@ def space(tier):
             out.append(('ctl', p))
     for p in feature_programs(kfeat):
         out.append(('feat', p))
+    for i, p in enumerate(feature_pairs()):
+        if tier != 'quick' or i % 4 == 0:      # quick: every 4th pair
+            out.append(('feat2', p))
     _SPACE = (tier, out)
     return out
 
@@ -184,7 +200,7 @@ def run_names(ctx, prop):
         'rule': 'every program of the bounded grammar (core k/d bounds, control-flow leaves, one substituted feature) '
                 'and EVERY CPython execution of it (branch outcomes, 0..2 loop trips, raise decisions); distinct_nontrivial = programs '
                 'with a read that has >=2 reaching sites or a maybe-unbound path',
-        'space': {o: int(c['programs_' + o]) for o in ('core', 'core-d3', 'ret5', 'try6', 'ctl', 'feat') if c['programs_' + o]},
+        'space': {o: int(c['programs_' + o]) for o in ('core', 'core-d3', 'ret5', 'try6', 'ctl', 'feat', 'feat2') if c['programs_' + o]},
         'features': sorted(features.FEATURES),
         'reads': int(c['reads']),
         'checked': {k: int(v) for k, v in c.items() if k.startswith('c0')},
